@@ -1,8 +1,12 @@
 package main
 
 import (
+	"crypto/sha256"
+	"encoding/hex"
 	"encoding/json"
 	"fmt"
+	"os"
+	"strconv"
 	"strings"
 	"time"
 
@@ -86,6 +90,7 @@ type inst struct {
 	m    *Model
 	log  []string // verbose trace (replay mode)
 	verbose bool
+	frozen  bool // look-ahead fork: the model is shared with the original and must not be updated
 }
 
 func newInst(verbose bool) *inst {
@@ -96,6 +101,32 @@ func newInst(verbose bool) *inst {
 }
 
 func (in *inst) close() { breaker.VerifForget(in.name) }
+
+// scratch is a long-lived breaker (registered by name, so that the package-level entry points
+// reach it) into which a reached state is transplanted for each look-ahead call.
+var scratch breaker.Breaker
+
+const scratchName = "c01-scratch"
+
+// fork returns an instance in exactly the state of in (white-box transplant of window and
+// lastPass into the scratch breaker; copy of the model). The clock is shared: forks are used at
+// the instant of the original only.
+func (in *inst) fork() *inst {
+	if scratch == nil {
+		scratch = breaker.GetBreaker(scratchName)
+	}
+	breaker.VerifCopyState(scratch, in.b)
+	return &inst{name: scratchName, b: scratch, m: in.m, verbose: in.verbose, frozen: true}
+}
+
+// forkFull is fork with a private copy of the model (which step then updates).
+func (in *inst) forkFull() *inst {
+	fk := in.fork()
+	m := *in.m
+	m.recs = append([]rec(nil), in.m.recs...)
+	fk.m, fk.frozen = &m, false
+	return fk
+}
 
 func (in *inst) jump(d int64) {
 	vsched.AdvanceGlobal(time.Duration(d))
@@ -131,11 +162,11 @@ func (in *inst) step(e Entry, out int, ans int, at float64) (si stepInfo, f *fai
 	if class != "" {
 		return si, &fail{class, msg + " [" + m.summary() + "]"}
 	}
-	delta := fmt.Sprintf("S%+d F%+d D%+d", ds, df, dd)
+	delta := func() string { return fmt.Sprintf("S%+d F%+d D%+d", ds, df, dd) }
 	switch verdict {
 	case vDone:
 		if ds != 0 || df != 0 || dd != 0 {
-			return si, &fail{"done-ctx-recorded:" + e.short(), fmt.Sprintf("%v with a done context changed the window by %s", e, delta)}
+			return si, &fail{"done-ctx-recorded:" + e.short(), fmt.Sprintf("%v with a done context changed the window by %s", e, delta())}
 		}
 	case vAdmitted:
 		k := wantKind(e, out)
@@ -154,14 +185,16 @@ func (in *inst) step(e Entry, out int, ans int, at float64) (si stepInfo, f *fai
 				cls = "admitted-recorded-twice"
 			}
 			return si, &fail{fmt.Sprintf("%s:%s/%s", cls, e.short(), outcomeNames[out]),
-				fmt.Sprintf("%v admitted, request outcome %s: window changed by %s, want exactly one %v record [%s]", e, outcomeNames[out], delta, k, m.summary())}
+				fmt.Sprintf("%v admitted, request outcome %s: window changed by %s, want exactly one %v record [%s]", e, outcomeNames[out], delta(), k, m.summary())}
 		}
-		m.add(k)
-		if lawP {
-			m.hasPoss, m.tPoss = true, m.now
-		}
-		if coin {
-			m.hasCoin, m.tCoin = true, m.now
+		if !in.frozen {
+			m.add(k)
+			if lawP {
+				m.hasPoss, m.tPoss = true, m.now
+			}
+			if coin {
+				m.hasCoin, m.tCoin = true, m.now
+			}
 		}
 	case vRejected:
 		if ds != 0 || df != 0 || dd != 1 {
@@ -172,7 +205,7 @@ func (in *inst) step(e Entry, out int, ans int, at float64) (si stepInfo, f *fai
 			case ds+df+dd > 1:
 				cls = "rejected-recorded-twice"
 			}
-			return si, &fail{cls + ":" + e.short(), fmt.Sprintf("%v rejected: window changed by %s, want exactly one rejection record [%s]", e, delta, m.summary())}
+			return si, &fail{cls + ":" + e.short(), fmt.Sprintf("%v rejected: window changed by %s, want exactly one rejection record [%s]", e, delta(), m.summary())}
 		}
 		if !lawP {
 			a, n := m.counts(m.now - winMax)
@@ -181,7 +214,9 @@ func (in *inst) step(e Entry, out int, ans int, at float64) (si stepInfo, f *fai
 		if forced {
 			return si, &fail{"forced-probe-rejected", fmt.Sprintf("%v rejected although the previous throttled admission is %s (> 1 s) old [%s]", e, dur(m.now-m.tPoss), m.summary())}
 		}
-		m.add(KD)
+		if !in.frozen {
+			m.add(KD)
+		}
 	}
 	return si, nil
 }
@@ -302,44 +337,63 @@ func runProbe(path []Op, p Probe, verbose bool) (si stepInfo, f *fail, in *inst)
 }
 
 // probeAll: the one-step look-ahead of every entry point x outcome (x coin answer where the coin
-// is consulted) in the state reached by path, plus the shedding-strength probe (6).
+// is consulted) in the state reached by path, plus the shedding-strength probe (6). The history
+// is replayed once; each look-ahead call runs on a fork of that state. The fork itself is
+// validated in every state: one call is executed both on a fork and on a second full replay, and
+// verdict, coin use and resulting state must agree.
 func probeAll(path []Op) (st probeStats, f *fail, fp *Probe) {
-	// what kind of state is it?
 	in, f0, _ := replay(path, false)
+	defer in.close()
 	if f0 != nil {
-		in.close()
 		return st, f0, nil
 	}
 	st.Law = in.m.lawPossible()
 	forced := in.m.forcedDue()
 	tf, nmin := in.m.totalFailure()
 	notForced := in.m.certainlyNotForced()
-	// done contexts never touch the breaker: all of them on this one instance
 	before := in.key()
+	if k := in.fork().key(); k != before {
+		return st, &fail{"harness-fork-mismatch", "fork differs from original: " + before + " vs " + k}, nil
+	}
+	// done contexts never touch the breaker: all of them on one fork
+	fk := in.fork()
 	for _, e := range doneEntries {
 		for _, out := range []int{oOK, oBad} {
 			st.Probes++
 			st.Done++
-			if _, f := in.step(e, out, ansDrop, 0); f != nil {
-				in.close()
+			if _, f := fk.step(e, out, ansDrop, 0); f != nil {
 				return st, f, &Probe{E: e, Out: out, Ans: ansDrop}
 			}
 		}
 	}
-	if after := in.key(); after != before {
-		in.close()
+	if after := fk.key(); after != before {
 		return st, &fail{"done-ctx-changed-state", "calls with done contexts changed the breaker state: " + before + " -> " + after}, &Probe{E: doneEntries[0], Out: oOK, Ans: ansDrop}
 	}
-	in.close()
+	first := true
 	for _, e := range liveEntries {
 		for _, out := range outcomesOf(e) {
 			for _, ans := range []int{ansPass, ansDrop} {
 				p := Probe{E: e, Out: out, Ans: ans}
-				si, f, pin := runProbe(path, p, false)
-				pin.close()
+				check := first || ans == ansDrop && st.Rejected == 0
+				fk := in.fork()
+				if check {
+					fk = in.forkFull()
+				}
+				si, f := fk.step(p.E, p.Out, p.Ans, 0)
 				st.Probes++
 				if f != nil {
 					return st, f, &p
+				}
+				if check {
+					// cross-validation of the fork against a full replay
+					first = false
+					k1 := fk.key()
+					si2, f2, in2 := runProbe(path, p, false)
+					k2 := in2.key()
+					in2.close()
+					if f2 != nil || si2 != si || k1 != k2 {
+						return st, &fail{"harness-fork-mismatch", fmt.Sprintf("probe %v: fork gave %+v %s, replay gave %+v %s (%v)", p, si, k1, si2, k2, f2)}, &p
+					}
 				}
 				switch si.verdict {
 				case vAdmitted:
@@ -364,8 +418,7 @@ func probeAll(path []Op) (st probeStats, f *fail, fp *Probe) {
 	if tf && nmin > 5 && notForced {
 		bound := 1 - 6/float64(nmin+1)
 		p := Probe{E: Entry{Base: bDo}, Out: oBad, Ans: ansAt, At: bound - 1e-9}
-		si, f, pin := runProbe(path, p, false)
-		pin.close()
+		si, f := in.fork().step(p.E, p.Out, p.Ans, p.At)
 		st.Probes++
 		st.Shed++
 		if f != nil {
@@ -402,8 +455,12 @@ func alphabetOf(thorough bool) (calls, jumps []Op) {
 func histRun(path []Op) vlib.RunResult {
 	if n := len(path); n > 0 && path[n-1].K == "PROBE" {
 		st, f, fp := probeAll(path[:n-1])
+		if f != nil && f.class == "harness-fork-mismatch" {
+			fmt.Fprintf(os.Stderr, "ERROR harness: %s (path %v)\n", f.msg, path)
+			os.Exit(2)
+		}
 		info, _ := json.Marshal(st)
-		rr := vlib.RunResult{Key: "P|" + fmt.Sprint(path), Stop: true, Info: string(info)}
+		rr := vlib.RunResult{Key: "P|" + hashKey(fmt.Sprint(path)), Stop: true, Info: string(info)}
 		if f != nil {
 			pj, _ := json.Marshal(fp)
 			rr.Err, rr.Class, rr.Info = f.msg, f.class, string(pj)
@@ -428,13 +485,22 @@ func histRun(path []Op) vlib.RunResult {
 	if len(in.m.recs) > 0 {
 		info += "R"
 	}
-	return vlib.RunResult{Key: in.key(), Info: info}
+	return vlib.RunResult{Key: hashKey(in.key()), Info: info}
+}
+
+// hashKey shortens a canonical state key for the parent's seen-set (96 bits of SHA-256).
+func hashKey(k string) string {
+	h := sha256.Sum256([]byte(k))
+	return hex.EncodeToString(h[:12])
 }
 
 func runHistory(cfg *vlib.Config, r *vlib.Report, deadline time.Time) {
 	depth := 5
 	if cfg.Thorough() {
 		depth = 7
+	}
+	if v, err := strconv.Atoi(os.Getenv("C01_DEPTH")); err == nil && v > 0 {
+		depth = v
 	}
 	calls, jumps := alphabetOf(cfg.Thorough())
 	var states, probed, probes, rejProbes, lawStates, forcedStates, shedProbes, coinProbes int
@@ -490,7 +556,7 @@ func runHistory(cfg *vlib.Config, r *vlib.Report, deadline time.Time) {
 				r.Nontrivial("hist|" + res.Key)
 			}
 			if r.WantSample() && len(path) >= 3 && strings.Contains(res.Info, "L") && states%7 == 0 {
-				r.Sample(map[string]any{"engine": "history", "history": fmt.Sprint(path), "state": res.Key})
+				r.Sample(map[string]any{"engine": "history", "history": fmt.Sprint(path), "state_hash": res.Key, "flags": res.Info})
 			}
 		},
 	}
@@ -515,7 +581,7 @@ func runHistory(cfg *vlib.Config, r *vlib.Report, deadline time.Time) {
 		"depth_bound": depth, "max_depth": out.MaxDepth, "closed": out.Closed, "exhaustive_to_depth": out.Exhaustive, "failures": out.Failures, "cap": out.Cap,
 		"alphabet": fmt.Sprint(append(append([]Op{}, calls...), jumps...))})
 	if !out.Exhaustive {
-		r.NotExhaustive("history: " + out.Cap + "; states of the last completed level are all probed")
+		r.NotExhaustive("history: " + out.Cap + " (a state of depth d is probed at level d+1: every state up to two levels below the cut is probed, the level below the cut is fully enumerated)")
 	}
 }
 
